@@ -6061,7 +6061,7 @@ class CodegenCtx:
             ) for action in transition.actions
         ):
             transition_body.add("// skip action label")
-            transition_body.add(f"{self._transition_skip_action_label(transition)}:")
+            transition_body.add(f"{self._transition_skip_action_label(transition)}: ;")  # (a label has to be followed by a statement, and nothing may follow on this transition)
         # Check if we should fallthrough and generate a goto
         if transition.is_fallthrough:
             if transition.target in self.dfa.states:
